@@ -12,6 +12,10 @@ if not os.path.isdir(WT): sh(f'git -C /repo worktree add -q --detach {WT} HEAD')
 sh(f'git -C {WT} checkout -q --detach $(git -C /repo rev-parse HEAD) && git -C {WT} checkout -- . && git -C {WT} clean -fdq')
 env = dict(os.environ, PYTHONPATH=WT, PYTHONDONTWRITEBYTECODE='1')
 meta = {'seed': sid, 'repo_head': sh('git -C /repo rev-parse --short HEAD').stdout.strip()}
+try: old_meta = json.load(open(os.path.join(d, 'meta.json')))
+except Exception: old_meta = {}
+if skip_tests and old_meta.get('suite_with_patch'):
+    meta['suite_with_patch'] = old_meta['suite_with_patch']; meta['suite_run_at_repo_head'] = old_meta.get('suite_run_at_repo_head') or old_meta.get('repo_head')
 r0 = subprocess.run(['/venv/bin/python', os.path.join(d, 'demo.py')], cwd=WT, env=env, capture_output=True, text=True)
 meta['demo_without_patch_exit'] = r0.returncode
 ap = sh(f'git -C {WT} apply {patch}')
@@ -29,7 +33,7 @@ if not skip_tests and meta['patch_applies']:
     missing = [t for t in base['stable_pass'] if t not in passed]
     meta['suite_with_patch'] = {'stable_pass_missing': len(missing), 'missing_sample': missing[:5]}
 sh(f'git -C {WT} checkout -- . && git -C {WT} clean -fdq')
-meta['confirmed'] = bool(meta['patch_applies'] and meta['demo_without_patch_exit'] == 0 and meta['demo_with_patch_exit'] != 0 and (skip_tests or meta['suite_with_patch']['stable_pass_missing'] == 0))
+meta['confirmed'] = bool(meta['patch_applies'] and meta['demo_without_patch_exit'] == 0 and meta['demo_with_patch_exit'] != 0 and (meta.get('suite_with_patch', {}).get('stable_pass_missing', 0 if skip_tests else 1) == 0))
 # run the registered checks against it in /repo
 res = {}
 ap = sh(f'git -C /repo apply {patch}')
